@@ -118,6 +118,22 @@ func run(p *program, st *stats) (fs []finding) {
 			if lst := v.model.Prefix(nil, -1, false); len(lst) > 0 {
 				key = lst[(o.Pick-1)%len(lst)].Key
 			}
+		} else if o.Pick < 0 {
+			// a key of the underlying database inside this view, whatever its staged state
+			// (so keys staged for deletion are written again and deleted twice)
+			fp := v.model.FullPrefix()
+			var lst [][]byte
+			for _, kv := range base.All() {
+				if bytes.HasPrefix(kv.Key, fp) {
+					lst = append(lst, kv.Key[len(fp):])
+				}
+			}
+			if len(lst) > 0 {
+				key = lst[(-o.Pick-1)%len(lst)]
+				if !v.model.Has(key) {
+					st.count("op_on_staged_deleted_db_key")
+				}
+			}
 		}
 		st.count("op_" + o.K)
 		if st != nil && st.resolved != nil {
@@ -126,7 +142,7 @@ func run(p *program, st *stats) (fs []finding) {
 					st.resolvedView[i] = j
 				}
 			}
-			if o.Pick > 0 {
+			if o.Pick != 0 {
 				st.resolved[i] = key
 			}
 		}
@@ -314,6 +330,17 @@ func run(p *program, st *stats) (fs []finding) {
 				st.feat("restore-changed-state")
 			} else {
 				st.count("restore_same_state")
+			}
+			if o.Quiet {
+				// no probe: reading every key through every view loads the whole database into
+				// the overlay, which hides whatever the following scans would have had to fetch
+				// themselves.  The later ops of the program are the observation.
+				st.count("restore_without_probe")
+				views = []*liveView{v}
+				for _, pf := range o.Prefixes {
+					views = append(views, &liveView{impl: v.impl.WithPrefix(pf), model: v.model.WithPrefix(pf)})
+				}
+				continue
 			}
 			// every key that is or was there: probe them all through each view
 			touched := map[string]bool{}
